@@ -9,6 +9,7 @@ From KV Require Import LockDiscipline.
 From KV.gen Require Locks.
 From KV Require Import SSTable Xxhash Block SSTFile.
 From KV Require Import Iter.
+From KV Require Import Compaction.
 Extraction Language OCaml.
 (* Coq's String module (identifiers of the C07 lock table) must not shadow OCaml's: it is emitted as String0 *)
 Extraction Blacklist String.
@@ -35,4 +36,7 @@ Separate Extraction
   Block.slice
   Iter.eng_it Iter.eng_range_it Iter.tx_it Iter.tx_range_it Iter.eng_iter Iter.tx_full Iter.tx_range
   Iter.filtered_iter Iter.prefix_filter Iter.suffix_filter Iter.scan Iter.collect Iter.eng_sources
+  Compaction.cinit Compaction.cput Compaction.cdel Compaction.cbatch Compaction.ccommit Compaction.cflush
+  Compaction.cfull Compaction.ctrigger Compaction.crange Compaction.creopen Compaction.cget Compaction.select
+  Compaction.select_range Compaction.dsort Compaction.nfresh
 .
